@@ -151,7 +151,9 @@ func (p *c02Pre) absorb(sc qScenario, h *qHistory, k int64, attemptBase map[stri
 			p.offered[a.Msg][n] = map[string]bool{}
 		}
 		for _, e := range h.Events {
-			if e.Msg == a.Msg && e.Attempt == a.N && e.Op == "rcpt" && e.Seq <= k {
+			// the recipient list of an attempt is fixed when it starts (the stored pending list), so the
+			// recipients it offers after the crash point still tell which ones it was going to include
+			if e.Msg == a.Msg && e.Attempt == a.N && e.Op == "rcpt" {
 				p.offered[a.Msg][n][e.Rcpt] = true
 			}
 		}
@@ -419,6 +421,31 @@ func c02Explore(c c02Case) (vs []ev.V) {
 		c02Rec.Count("crash-images", nil, ev.Info{Key: fmt.Sprintf("%s|%d|%v", c02ScenarioKey(sc), p1.K, p1.V), Nontrivial: !quiescent[int64(p1.K)] || p1.V.Torn >= 0,
 			Classes: []string{"depth=1", fmt.Sprintf("drop=%v", p1.V.DropUnsynced)}})
 		report([]c02Point{p1}, found)
+		if os.Getenv("VERIF_DEBUG") != "" && len(c.Path) >= 1 {
+			fmt.Println("=== log0")
+			for i, o := range log0 {
+				fmt.Printf("%d %s %s %d bytes\n", i, o.Kind, filepath.Base(o.Path), len(o.Data))
+			}
+			fmt.Println("=== H0 events")
+			for _, e := range h0.Events {
+				fmt.Printf("seq=%d at=%v %s #%d %s %s %s\n", e.Seq, e.At, e.Msg, e.Attempt, e.Op, e.Rcpt, e.Err)
+			}
+			for _, a := range h0.Attempts {
+				fmt.Printf("attempt %s #%d start=%d commit=%d committed=%v accepted=%v\n", a.Msg, a.N, a.StartSeq, a.CommitSeq, a.Committed, a.Accepted)
+			}
+			fmt.Println("=== image1", c02Dir(img), metas)
+			fmt.Println("=== log1")
+			for i, o := range log1 {
+				fmt.Printf("%d %s %s\n", i, o.Kind, filepath.Base(o.Path))
+			}
+			fmt.Println("=== H1 events")
+			for _, e := range h1.Events {
+				fmt.Printf("seq=%d %s #%d %s %s %s\n", e.Seq, e.Msg, e.Attempt, e.Op, e.Rcpt, e.Err)
+			}
+			for _, a := range h1.Attempts {
+				fmt.Printf("attempt %s #%d start=%d commit=%d committed=%v accepted=%v\n", a.Msg, a.N, a.StartSeq, a.CommitSeq, a.Committed, a.Accepted)
+			}
+		}
 		if depth2 && len(found) == 0 {
 			attemptBase := map[string]int{}
 			for id, mx := range pre.startedMax {
@@ -448,7 +475,36 @@ func c02Explore(c c02Case) (vs []ev.V) {
 				h2 := qRecover(img2, sc, 3*time.Hour)
 				where2 := where + fmt.Sprintf("; then crash of the recovery run before op %d/%d %s drop-unsynced=%v", p2.K, len(log1), c02OpName(log1, p2.K), p2.V.DropUnsynced)
 				c02Rec.Count("crash-images", nil, ev.Info{Key: fmt.Sprintf("%s|%d|%v|%d|%v", c02ScenarioKey(sc), p1.K, p1.V, p2.K, p2.V), Nontrivial: true, Classes: []string{"depth=2"}})
-				report([]c02Point{p1, p2}, c02Invariants(sc, pre2, img2, metas2, h2, where2))
+				found2 := c02Invariants(sc, pre2, img2, metas2, h2, where2)
+				if len(found2) > 0 {
+					// schedules of concurrent goroutines are not owned here, so a replay may interleave differently:
+					// keep everything needed to judge the case in the report itself
+					var b strings.Builder
+					fmt.Fprintf(&b, "\n--- first run, file-system log:")
+					for i, o := range log0 {
+						fmt.Fprintf(&b, " %d:%s:%s", i, o.Kind, filepath.Base(o.Path))
+					}
+					fmt.Fprintf(&b, "\n--- first run, events:")
+					for _, e := range h0.Events {
+						fmt.Fprintf(&b, " [seq%d %s#%d %s %s %s]", e.Seq, e.Msg, e.Attempt, e.Op, e.Rcpt, e.Err)
+					}
+					fmt.Fprintf(&b, "\n--- image 1 meta: %v\n--- recovery 1 log:", metas)
+					for i, o := range log1 {
+						fmt.Fprintf(&b, " %d:%s:%s", i, o.Kind, filepath.Base(o.Path))
+					}
+					fmt.Fprintf(&b, "\n--- recovery 1 events:")
+					for _, e := range h1.Events {
+						fmt.Fprintf(&b, " [seq%d %s#%d %s %s %s]", e.Seq, e.Msg, e.Attempt, e.Op, e.Rcpt, e.Err)
+					}
+					fmt.Fprintf(&b, "\n--- image 2 meta: %v\n--- recovery 2 events:", metas2)
+					for _, e := range h2.Events {
+						fmt.Fprintf(&b, " [%s#%d %s %s %s]", e.Msg, e.Attempt, e.Op, e.Rcpt, e.Err)
+					}
+					for i := range found2 {
+						found2[i].What += b.String()
+					}
+				}
+				report([]c02Point{p1, p2}, found2)
 				os.RemoveAll(img2)
 			}
 		}
